@@ -104,7 +104,7 @@ Theorem C13_lua_script_fails : forall o path file b script content0 content cls 
   get_attr (T "check-lua") (b_attrs b) = Some script ->
   content_of file b = Ok content0 ->
   extract_content o (T "check-lua-pattern") E_LUA_PATTERN b content0 = Ok content ->
-  o_lua o script path content = Some (cls, msg) ->
+  o_lua o script (path ++ 58 :: dec (fst (b_ts b))) content = Some (cls, msg) ->
   cls <> 0 -> cls <> 1 ->
   check_lua_block o path file b = Err E_LUA_SCRIPT.
 Proof. exact check_lua_script_fails. Qed.
